@@ -16,6 +16,14 @@
 (*              "plain" | "method" | "static" | "decorated" | "async" | "nested"                 *)
 (* table.am     the stub's def has the same parameter shape (FunctionKey) as the source's       *)
 (* Result of a slot: "none" (no annotation) | "ex" (the existing one) | "st" (the stub's)       *)
+(*                                                                                            *)
+(* asCoded = FALSE: the rule table (what the property asks for).  asCoded = TRUE: the code as   *)
+(* written, with its two known deviations:                                                     *)
+(*   - RemoveAnyNeverTransformer.leave_AnnAssign tests the Annotation node itself against Name  *)
+(*     and therefore never fires (Any / Never stay on variables);                               *)
+(*   - the applier looks a tuple / chained target of a class body up under its class-qualified  *)
+(*     name but emits the declaration `v: T` at module level under the bare name (Stray);       *)
+(*   - (no effect on the property) a re-assigned variable stops all later variable lookups.     *)
 EXTENDS Naturals, Sequences, FiniteSets
 
 AnyNever == {"Any", "Never"}
@@ -23,8 +31,7 @@ Trivial == {"triv", "Lit"}
 VarKinds == {"modvar", "clsvar"}
 FuncKinds == {"param", "ret"}
 
-(* pass 1 over the stub: RemoveAnyNeverTransformer.  asCoded: leave_AnnAssign tests the          *)
-(* Annotation node itself against Name and therefore never fires                                *)
+(* pass 1 over the stub: RemoveAnyNeverTransformer *)
 AfterAnyNever(asCoded, s) ==
   IF s.kind = "ret" /\ s.st \in AnyNever THEN "none"
   ELSE IF s.kind \in VarKinds /\ s.st \in AnyNever /\ ~asCoded THEN "none"
@@ -47,17 +54,34 @@ Applicable(t) == t.fl # "nested" /\ t.am
 Clash(t, fst) ==
   \E k \in FuncSlots(t) : t.slots[k].ctx # "star" /\ t.slots[k].ex = "T" /\ fst[k] \notin {"none", "T"}
 
-ApplySlot(t, fst, k) ==
+(* as coded only: _annotate_single_target leaves the name of a variable that is assigned again   *)
+(* (and already annotated) on the qualifier stack; every later variable of the module is then     *)
+(* looked up under a wrong qualified name and stays unannotated                                  *)
+Leak(asCoded, t, fst, k) ==
+  asCoded /\ \E j \in 1 .. k - 1 :
+    t.slots[j].kind \in VarKinds /\ t.slots[j].ctx = "reassign" /\ t.slots[j].ex = "none" /\ fst[j] # "none"
+
+ApplySlot(asCoded, t, fst, k) ==
   LET s == t.slots[k] IN
   IF s.ex # "none" THEN "ex"
   ELSE IF s.kind \in FuncKinds
     THEN IF Applicable(t) /\ ~Clash(t, fst) /\ s.ctx # "star" /\ fst[k] # "none" THEN "st" ELSE "none"
+  ELSE IF Leak(asCoded, t, fst, k) THEN "none"
   ELSE IF s.ctx \in {"assign", "reassign"} THEN (IF fst[k] # "none" THEN "st" ELSE "none")
   ELSE IF s.ctx \in {"tuple", "multi"} /\ s.kind = "modvar"
     THEN (IF fst[k] # "none" THEN "st" ELSE "none")    \* as a declaration `v: T` above the statement
-  ELSE "none"                                          \* locals; tuple targets in a class body
+  ELSE "none"                                          \* locals; tuple / chained targets in a class body
 
-Merge(asCoded, t) == LET fst == Filtered(asCoded, t) IN [k \in DOMAIN t.slots |-> ApplySlot(t, fst, k)]
+Merge(asCoded, t) ==
+  LET fst == Filtered(asCoded, t) IN [k \in DOMAIN t.slots |-> ApplySlot(asCoded, t, fst, k)]
+
+(* slots whose stub type ends up as a module-level declaration of an unrelated (bare) name *)
+StraySlot(asCoded, t, fst, k) ==
+  LET s == t.slots[k] IN
+  /\ asCoded /\ s.kind = "clsvar" /\ s.ctx \in {"tuple", "multi"} /\ s.ex = "none" /\ fst[k] # "none"
+  /\ ~Leak(asCoded, t, fst, k)
+Stray(asCoded, t) ==
+  LET fst == Filtered(asCoded, t) IN {k \in DOMAIN t.slots : StraySlot(asCoded, t, fst, k)}
 
 -----------------------------------------------------------------------------
 (* The property, on a table and a result *)
@@ -67,6 +91,8 @@ FromStub(t, res) == \A k \in DOMAIN t.slots : res[k] \notin {"none", "ex"} => re
 NoBareAnyNever(t, res) ==
   \A k \in DOMAIN t.slots :
     (t.slots[k].kind \in {"ret"} \cup VarKinds /\ res[k] = "st") => t.slots[k].st \notin AnyNever
+(* every inserted annotation sits on the definition the stub gave it for *)
+NoStray(strays) == strays = {}
 (* operational: a function is annotated as a whole or not at all *)
 AllOrNothing(asCoded, t, res) ==
   Clash(t, Filtered(asCoded, t)) => \A k \in FuncSlots(t) : res[k] # "st"
